@@ -4,6 +4,7 @@ import (
 	"bytes"
 	"fmt"
 	"io"
+	"os"
 	"time"
 
 	"go.pennock.tech/tabular/properties"
@@ -173,7 +174,7 @@ func (engC15) Gen(r *Rng, s *Script, idx int, tier string) {
 		if tall && !huge {
 			f = []int{FmtText, FmtMD, FmtCSV, FmtJSON, FmtText}[i%5]
 		}
-		st := Step{Op: "render", A: f, B: []int{0, 1, 2, 3, 4, 5, 6, 8, 9}[r.Intn(9)], C: []int{ViaPkg, ViaFresh, ViaFresh, ViaAuto, ViaReused, ViaAutoFn}[r.Intn(6)], D: r.Intn(16) | r.Pick([]int{4, 1, 1, 1, 1, 1})<<4, E: r.Range(1, 99)}
+		st := Step{Op: "render", A: f, B: []int{0, 1, 2, 3, 4, 5, 6, 8, 9}[r.Intn(9)], C: []int{ViaPkg, ViaFresh, ViaFresh, ViaAuto, ViaReused, ViaAutoFn}[r.Intn(6)], D: r.Intn(16) | r.Pick([]int{4, 1, 1, 1, 1, 1, 1})<<4, E: r.Range(1, 99)}
 		if huge && f == FmtText {
 			st.C = ViaReused
 		}
@@ -237,6 +238,35 @@ func (engC15) Exec(s *Script, keepLog bool) (guarded *Result) {
 		if len(st.Plan) >= 2 { // pinned fault (replay files)
 			ks = []int{st.Plan[0]}
 			modes = []int{st.Plan[1]}
+			if st.Plan[0] < 0 {
+				ks = nil // the real-file fault below
+			}
+		}
+		if (len(st.Plan) < 2 || st.Plan[0] < 0) && len(ref) > 0 && ferr == nil {
+			// One fault that no hand-written writer can deliver: the destination is a
+			// real *os.File whose every write fails (/dev/full: "no space left on
+			// device"; where that does not exist, a file opened read-only).  A
+			// renderer that treats files specially (buffering, say) must still report it.
+			f, oerr := os.OpenFile("/dev/full", os.O_WRONLY, 0)
+			if oerr != nil {
+				f, oerr = os.Open(os.DevNull)
+			}
+			if oerr == nil {
+				_, err, pi := w.Render(spec, f)
+				f.Close()
+				evals++
+				w.Faults["real_file_refusing_every_write"]++
+				if pi != nil {
+					res.Pin = []int{i, -1, 0}
+					return &Violation{Property: "C15", Signature: "C15/panic:" + fname + ":" + pi.Frame,
+						Detail: fmt.Sprintf("%s into a file that refuses every write panicked: %s", spec, pi.Value)}
+				}
+				if err == nil {
+					res.Pin = []int{i, -1, 0}
+					return &Violation{Property: "C15", Signature: "C15/nil-error:" + fname + ":real_file",
+						Detail: fmt.Sprintf("%s into a *os.File that refuses every write (/dev/full) returned nil although none of the %d bytes of output was accepted", spec, len(ref))}
+				}
+			}
 		}
 		for _, k := range ks {
 			for _, mode := range modes {
